@@ -331,6 +331,28 @@ func AdvanceNow(d time.Duration) {
 // model; natively 0).
 func BlockedSenders() int { return 0 }
 
+// WaitsAfterDeadline: number of goroutines that evaluated a blocking select / receive after having taken
+// a deadline (ctx.Done) case (known only to the symbolic scheduler model; natively 0 - the native replay
+// measures the return time under testing/synctest instead).
+func WaitsAfterDeadline() int { return 0 }
+
+// RawInt reads a counterexample value by its exact name (native replay only; no occurrence counter).
+func RawInt(name string, dflt int64) int64 {
+	load()
+	raw, ok := vals[name]
+	if !ok {
+		return dflt
+	}
+	var n json.Number
+	if err := json.Unmarshal(raw, &n); err != nil {
+		return dflt
+	}
+	if i, err := n.Int64(); err == nil {
+		return i
+	}
+	return dflt
+}
+
 // CtxFired reports whether the context has been cancelled / has expired.
 func CtxFired(ctx interface{ Err() error }) bool { return ctx.Err() != nil }
 
